@@ -156,11 +156,12 @@ def _hunt(c, pairs, timeout_ms=8000):
             if z3.is_algebraic_value(val):
                 val = val.approx(20)
             fixed.append(z3.Real(d.name()) == val)
-    for keep in (1, 2):
+    for keep in (0, 1, 2):
         if len(fixed) <= keep:
             break
-        for off in range(min(3, len(fixed))):
+        for off in range(1 if keep == 0 else min(3, len(fixed))):
             g = fixed[off:] + fixed[:off]
+            # keep = 0: the claim is evaluated at the model point itself
             r, model = c.prove_eqs(pairs, timeout_ms=timeout_ms,
                                    guard=z3.And(*g[keep:]))
             if r == "sat":
@@ -175,7 +176,8 @@ def _vals(model, v):
 
 def unit_solver(name, niter=1, tol=1e-6, timeout_ms=60000, fork_minmax=False,
                 deadline_s=None, kinds=("symmetry", "equal_states",
-                                        "dispatch"), cov=False, slice_=False):
+                                        "dispatch"), cov=False, slice_=False,
+                nonzero_div=False):
     common.use_repo()
     import pysph.sph.gas_dynamics.riemann_solver as R
     f = getattr(R, name)
@@ -211,7 +213,10 @@ def unit_solver(name, niter=1, tol=1e-6, timeout_ms=60000, fork_minmax=False,
 
     table = dict(MATH_TABLE)
     table["printf"] = lambda *a: None
+    if nonzero_div:
+        out["unit"] += " divisors!=0"
     ex = dict(stats=stats, fork_minmax=fork_minmax, formal_cache=cov,
+              nonzero_div=nonzero_div,
               feas_timeout_ms=1500 if name in ITERATIVE else 5000,
               deadline_s=deadline_s)
     with patched_globals(R, table):
@@ -358,6 +363,7 @@ def main():
         # bug-hunting slice (4 symbolic reals): decided paths are claims on
         # the slice only, undecided ones are listed
         add(s_, ("symmetry",), cov=True, fork_minmax=True, slice_=True,
+            nonzero_div=True,
             timeout_ms=10000 if t == "quick" else 60000,
             deadline_s=170 if t == "quick" else 1500)
     if t == "thorough":
@@ -380,9 +386,11 @@ def main():
                                    "van_leer", "exact"],
                           slice="gamma = 7/5, right state rho = 1, p = 5/7; "
                           "left state and both velocities symbolic",
-                          note="time-boxed; a path whose query stays "
-                          "unknown is followed by a counter-example hunt on "
-                          "lines through a model of the path condition"),
+                          note="time-boxed; divisors assumed non-zero (no "
+                          "ZeroDivisionError fork); a path whose query "
+                          "stays unknown is followed by a counter-example "
+                          "hunt: the claim is evaluated at a model of the "
+                          "path condition and on lines through it"),
                       query_timeout_ms=cap, unit_deadline_s=dl,
                       numeric_domain="exact reals; sqrt = non-negative root, "
                       "pow uninterpreted")
